@@ -86,7 +86,7 @@ impl Decoder for LinesCodec {
         else { (Dec::Error, rest_eof(b), c) }
     }
 
-//@extract file=actix-codec/src/lines.rs item="impl Decoder for LinesCodec / fn decode" ret=r props=C15,C13 err_closures str_paths
+//@extract file=actix-codec/src/lines.rs item="impl Decoder for LinesCodec / fn decode" ret=r props=C15,C13 err_closures str_paths bind="len=match memchr(b'\n', src) { Some(n) => n, None => { return Ok(None); } }"
 //@spec
     ensures
         // no LF buffered: nothing is produced and nothing is consumed   [C15,C13]
